@@ -188,6 +188,9 @@ def OpOk : Op → Prop
   | .connect _ _ _ addr => AddrOk addr
   | _ => True
 
+instance (op : Op) : Decidable (OpOk op) := by
+  cases op <;> unfold OpOk <;> infer_instance
+
 theorem ticksOf_le_length (ls : List Lbl) : ticksOf ls ≤ ls.length := by
   induction ls with
   | nil => simp
